@@ -3,6 +3,7 @@
 mod container;
 mod conv;
 mod ops;
+mod settings;
 mod sexp;
 mod sinkrun;
 mod sinks;
@@ -14,6 +15,18 @@ fn main() {
     // a panic inside the library is an observation, not a crash of the harness
     std::panic::set_hook(Box::new(|_| {}));
     let args: Vec<String> = std::env::args().collect();
+    if args.get(1).map(|s| s.as_str()) == Some("settings") {
+        // one program per process: the settings are process-wide and write-once
+        let mut line = String::new();
+        std::io::stdin().read_line(&mut line).expect("read");
+        let (id, body) = line.trim_end().split_once(' ').expect("id");
+        let obs = match sexp::parse(body) {
+            Ok(p) => settings::run(&p),
+            Err(e) => sexp::Sexp::tag("unparsable", vec![sexp::Sexp::hex(e.as_bytes())]),
+        };
+        println!("{} {}", id, sexp::to_string(&obs));
+        return;
+    }
     ops::init(&args[1..]);
     let stdin = std::io::stdin();
     let stdout = std::io::stdout();
